@@ -68,6 +68,8 @@ def make_cases(chk, rng):
                     A = qd_values(rng, n, mask, zero_pivot=zp)
                     b = [F(rng.randint(-3, 3)) for _ in range(n)]
                     L.append(f"ldl.sparse {n} {' '.join(map(str, pm))} {n} {n} {entries(A, mask, n)} {' '.join(fs(x) for x in b)}")
+                    if not zp:
+                        L.append(f"csc.permute {n} {' '.join(map(str, pm))} {n} {n} {entries(A, mask, n)}")
             # storage level: the arrays of the sparse LDLt object itself (etree, column starts and counts, filled row indices and
             # values, D, one solve) against the loop-level model PiqpModel/SparseLdl.lean, with and without a zero pivot
             for zp in (False, True):
@@ -262,7 +264,8 @@ def run(replay=None):
                        "Csc model: every pattern of every shape up to 3x3 and the random rectangular ones; is_transpose_pattern against its loop-level model "
                        "(binary search included) on every pair of patterns with at most 4 cells (thorough: 2x3 too) and random near-miss pairs up to 5x5; "
                        "the sparse LDLt object array by array (etree, L_cols, L_nnz, filled L_ind/L_vals, D, return value, solve_inplace) against the "
-                       "loop-level model SparseLdl on every upper pattern n<=5 (with and without zero pivot) and the random sparse ones")
+                       "loop-level model SparseLdl on every upper pattern n<=5 (with and without zero pivot) and the random sparse ones; "
+                       "permute_sparse_symmetric_matrix array by array incl. the returned slot map (Csc.permuteSym) on the same patterns x permutations")
     for c in cases[:2]:
         chk.sample({"case": c["name"], "line": c["lines"][0][:200]})
     if proof_ok is False and not chk.violations:
